@@ -190,7 +190,7 @@ func formatEventsParseError(path string, lineNo int, line []byte, cause error) e
 }
 
 func appendEvents(path string, events []Event) error {
-	file, err := os.OpenFile(path, os.O_APPEND|os.O_CREATE|os.O_WRONLY, 0644)
+	file, err := os.OpenFile(path, os.O_APPEND|os.O_CREATE|os.O_RDWR, 0644)
 	if err != nil {
 		return err
 	}
@@ -209,7 +209,63 @@ func appendEvents(path string, events []Event) error {
 	if buf.Len() == 0 {
 		return nil
 	}
-	return writeAll(file, buf.Bytes())
+	prefix, err := repairTail(file)
+	if err != nil {
+		return err
+	}
+	return writeAll(file, append(prefix, buf.Bytes()...))
+}
+
+// repairTail prepares a log whose last byte is not a newline (the trace of a
+// writer that died mid-append) for the next append. A complete final event
+// that merely lacks its newline is kept: the returned prefix supplies it. An
+// incomplete fragment - which readers ignore - is cut off, so that it cannot
+// be glued onto the next event and turn into an unreadable line in the middle
+// of the log. The caller holds the lock.
+func repairTail(file *os.File) ([]byte, error) {
+	info, err := file.Stat()
+	if err != nil {
+		return nil, err
+	}
+	size := info.Size()
+	if size == 0 {
+		return nil, nil
+	}
+	last := make([]byte, 1)
+	if _, err := file.ReadAt(last, size-1); err != nil {
+		return nil, err
+	}
+	if last[0] == '\n' {
+		return nil, nil
+	}
+	// Find where the unterminated last line starts.
+	start := int64(0)
+	chunk := make([]byte, 4096)
+	for end := size; end > 0 && start == 0; {
+		begin := end - int64(len(chunk))
+		if begin < 0 {
+			begin = 0
+		}
+		n, err := file.ReadAt(chunk[:end-begin], begin)
+		if err != nil && int64(n) != end-begin {
+			return nil, err
+		}
+		if idx := bytes.LastIndexByte(chunk[:n], '\n'); idx >= 0 {
+			start = begin + int64(idx) + 1
+			break
+		}
+		end = begin
+	}
+	fragment := make([]byte, size-start)
+	if _, err := file.ReadAt(fragment, start); err != nil {
+		return nil, err
+	}
+	trimmed := bytes.TrimSpace(fragment)
+	var event Event
+	if len(trimmed) == 0 || json.Unmarshal(trimmed, &event) == nil {
+		return []byte{'\n'}, nil
+	}
+	return nil, file.Truncate(start)
 }
 
 func writeEventsFile(path string, events []Event) error {
